@@ -148,6 +148,21 @@ def _moment_case(case):
                 out.append(("inert_ratio_raw not translation invariant",
                             str(case["poly"])))
             pr = float(ir.get_inert_ratio_prnc(P))
+            # float contours: same values, and the caller's array is left
+            # alone (the raw ratio of the same array afterwards agrees)
+            Pf = P.astype(np.float64)
+            Pf0 = Pf.copy()
+            prf = float(ir.get_inert_ratio_prnc(Pf))
+            rawf = float(ir.get_inert_ratio_raw(Pf))
+            if not np.array_equal(Pf, Pf0):
+                out.append(("inertia ratio modifies the caller's contour",
+                            str(case["poly"])))
+            elif not (near(prf, pr, 1e-9) or (np.isnan(prf)
+                                              and np.isnan(pr))) \
+                    or not near(rawf, raw, 1e-9):
+                out.append(("inertia ratios differ for a float contour",
+                            "%s: %r/%r vs %r/%r" % (case["poly"], prf, rawf,
+                                                    pr, raw)))
             rot = np.stack([-P[:, 1], P[:, 0]], axis=1) + 50
             pr2 = float(ir.get_inert_ratio_prnc(rot))
             if np.isfinite(pr):
